@@ -30,6 +30,8 @@ class RefPeer:
         self.fates = []             # consumed in order, one per received RTS: {"f": "clean"|"silent"|"abort"|"ignore_dt"|"no_ack", "k": int}
         self.accept_rts = True
         self.respond_eom = True
+        self.rereq = []             # grant indices (0-based, > 0) at which this responder asks for the previous window AGAIN
+                                    # (as if those packets had arrived damaged): CTS "next packet" points back - legal
         bus.attach(self)
 
     # ------------------------------------------------------------- helpers
@@ -200,7 +202,17 @@ class RefPeer:
                 else:
                     self.send(7, R.TP_CM_PF, s["src"], R.tp_abort(1, s["pgn"]))
                 return
+            if s.get("grants_made", 0) in self.rereq and s.get("grants_made", 0) not in s.setdefault("rereq_done", set()) \
+                    and s.get("wstart") is not None and s["next"] > s["wstart"]:
+                # retransmission request: forget the last window and ask for it again
+                s["rereq_done"].add(s["grants_made"])
+                segb = 60 if self.fd else 7
+                s["data"] = s["data"][:(s["wstart"] - 1) * segb]
+                s["next"] = s["wstart"]
+                remaining = s["packets"] - (s["next"] - 1)
+                s["rerequested"] = s.get("rerequested", 0) + 1
             s["grants_made"] = s.get("grants_made", 0) + 1
+            s["wstart"] = s["next"]
             g = self._next(self.grants, "_gi")
             lim = s["limit"] if s["limit"] else 255
             n = max(1, min(g, lim, remaining))
